@@ -229,3 +229,45 @@ aiomix.install(globals(), 0.2,
                                             aiomix.stream(rng, _c17.scenarios, tweak=aiomix.past_window_tweak)),
                aiomix.c11_specs,
                note="C18-style histories (deletions, coroutines using their scheduler) alternating with C17-style job lives (starts and stops in the past and future, batched lists, skip); Spec at every quiescent point: registered = created - deleted - exhausted, delete_job of an unregistered job raises and changes nothing, queries are pure")
+
+
+# ---- concurrent callers (threading): the same bookkeeping when several threads change the registry at once -
+# ---- every completed call's result (incl. the count delete_jobs returns) and the final job set are those of
+# ---- some sequential order (the C14 scenario family and its Lean-evaluated linearizability Spec)
+from . import c14 as _c14  # noqa: E402
+
+_seq = {k: globals()[k] for k in ("scenarios", "runner", "specs", "classes", "nontrivial", "project")}
+
+
+def scenarios(rng, n, tier):  # noqa: F811
+    for scn in _seq["scenarios"](rng, n, tier):
+        if rng.random() < 0.12:
+            c = _c14.gen_scenario(rng, {"p_exec_heavy": 0.0, "p_line": 0.6, "del_heavy": rng.random() < 0.7})
+            c["kind"] = "conc"
+            yield c
+        else:
+            yield scn
+
+
+def runner(scn):  # noqa: F811
+    return _c14.runner(scn) if scn.get("kind") == "conc" else _seq["runner"](scn)
+
+
+def specs(r):  # noqa: F811
+    return _c14.specs(r) if r["scn"].get("kind") == "conc" else _seq["specs"](r)
+
+
+def project(line):  # noqa: F811
+    return _seq["project"](line)
+
+
+def classes(r):  # noqa: F811
+    return ["kind:concurrent-callers"] + _c14.classes(r) if r["scn"].get("kind") == "conc" else _seq["classes"](r)
+
+
+def nontrivial(r):  # noqa: F811
+    return _c14.nontrivial(r) if r["scn"].get("kind") == "conc" else _seq["nontrivial"](r)
+
+
+RULE += ("; 12% of the scenarios are 2-4 controlled threads each performing 1-3 registry operations at once (C14 family, thread switches "
+         "at every lock operation and, in 60%, at every source line): results and final job set must be linearizable")
